@@ -7,6 +7,7 @@
 #include <atomic>
 #include <fstream>
 #include <iostream>
+#include <csignal>
 #include <unistd.h>
 
 #if defined(__has_feature)
@@ -120,9 +121,20 @@ static void report(uint64_t seed, const Result& r, bool dump_sched) {
     out(os.str());
 }
 
+static void on_alarm(int) {
+    // backup for endless loops in uninstrumented code (the edge clock cannot see those)
+    const char* msg = "WALL-TIMEOUT run exceeded its wall-clock limit\n";
+    ssize_t w = write(1, msg, strlen(msg));
+    (void)w;
+    _exit(81);
+}
+
 static Result run_plan(const Engine& e, const Plan& pl) {
     Result r;
+    signal(SIGALRM, on_alarm);
+    alarm(pl.tier == "thorough" ? 1800u : 600u);
     run_isolated([&] { r = e.exec(pl); });
+    alarm(0);
     return r;
 }
 
